@@ -34,14 +34,16 @@ FUNCTIONS = {
 def tasks(tier, pid):
     t = []
     tcases = CT.cases(tier)
-    if pid in ('C01', 'C03', 'C04'):
+    if pid in ('C01', 'C03', 'C04', 'C12', 'C05'):
+        # C12 / C05: the clauses of Container._transfer's and __init__'s contracts that the solution builders use modularly
         t += [('transfer',) + c for c in tcases]
     elif pid in ('C02', 'C10'):
         t += [('transfer',) + c for c in tcases if c[2] in ('range', 'empty0')]
     ops = {'C03': ['add', 'remove', 'fill_to', 'init'], 'C10': ['add', 'remove', 'fill_to', 'init', 'get_volume',
                                                                'get_concentration'],
            'C17': ['remove'], 'C11': ['fill_to', 'add'], 'C04': ['add', 'remove', 'fill_to', 'init', 'get_volume',
-                                                              'get_concentration']}.get(pid, [])
+                                                              'get_concentration'],
+           'C12': ['init'], 'C05': ['init']}.get(pid, [])
     for o in ops:
         for c in CO.OPS[o].cases(tier):
             if pid == 'C10' and o == 'add' and c[2] != 'pos':
@@ -77,11 +79,36 @@ def tasks(tier, pid):
             for v in variants:
                 t.append(('recipe_method', m, v, False))
         t.append(('syntactic',))
+    t += unit_contract_tasks(tier, pid)
     t.append(('canaries',))
     return t
 
 
+# Properties whose contracts use Unit.convert_from / Unit.convert / the storage conversions through their specification
+# (contracts/unit_summaries.py): their checks re-discharge that specification on the real conversion code, so that a
+# change inside the conversions is reported under every property that is decided modulo them.
+USES_UNIT_CONTRACTS = ('C02', 'C03', 'C05', 'C09', 'C10', 'C11', 'C12', 'C15', 'C17', 'C19')
+
+
+def unit_contract_tasks(tier, pid):
+    if pid not in USES_UNIT_CONTRACTS:
+        return []
+    from contracts import c06_units as U6
+    return [('unit_contract',) + x for x in U6.tasks(tier) if x[0] in ('prefix', 'convert_from', 'convert', 'storage')]
+
+
+def run_unit_contract(pid, *args):
+    from contracts import c06_units as U6
+    out = []
+    for r in U6.run(*args):
+        if r['kind'] in ('property', 'aux') or r['verdict'] == 'unsupported':
+            out.append(dict(r, name=r['name'].replace('C06/', f'{pid}/', 1)))
+    return out
+
+
 def run(pid, kind, *args):
+    if kind == 'unit_contract':
+        return run_unit_contract(pid, *args)
     if kind == 'transfer':
         return CT.run_case(pid, *args)
     if kind == 'op':
